@@ -22,7 +22,8 @@ RULE = (
     "valid generated histories over all 14 transaction types and the three tables (same-instant mixes of earn rows, "
     "disposals and transfers; fee-less, fee-bearing and self transfers) x methods; the taxable set and the fractions of "
     "each run are compared with the input rows by unique row id. Non-trivial = history containing at least one earn row, "
-    "one out row and one transfer; distinct = hash of the history"
+    "one out row and one transfer; distinct = hash of the history. "
+    "The repository's own example inputs (input/*.ods read independently of RP2's parser, every method and the config's schedule, -n) are part of the workload"
 )
 ASSUMPTIONS = [
     "in general workloads a non-zero transfer fee is worth >= 1e-9 fiat (below 5e-14 is known finding KF4, exercised by its directed probe only)",
